@@ -1006,7 +1006,8 @@ func (f *Frame) evalLen(v ssa.Value) Poly {
 			if ia, ok := t.X.(*ssa.IndexAddr); ok {
 				if c, ok := ia.X.(*ssa.Call); ok {
 					if callee := c.Call.StaticCallee(); callee != nil && calleeIs(callee, "juniper/xslices", "Chunk") {
-						name := "len(" + f.canon(v) + ")"
+						// named by the Chunk call and the index, so that two reads of chunks[i] are one quantity
+						name := "len(" + f.canon(c) + "[" + f.canon(ia.Index) + "])"
 						p := f.S.atom(name, "chunklen", v)
 						ai := f.S.Atoms[name]
 						ai.ChunkOf = c.Call.Args[0]
@@ -1026,7 +1027,16 @@ func (f *Frame) evalLen(v ssa.Value) Poly {
 			}
 		}
 	case *ssa.Parameter:
-		// a variadic/slice parameter: its length is an atom of this function
+		// a slice parameter of a helper that every caller hands one chunk of xslices.Chunk(X, k): a chunk length
+		if k, ok := f.chunkParam(t); ok {
+			name := "len(" + f.canon(v) + ")"
+			p := f.S.atom(name, "chunklen", v)
+			ai := f.S.Atoms[name]
+			ai.ChunkSize = k
+			ai.Desc = fmt.Sprintf("length of parameter %s, which every caller binds to one chunk (chunk size %d)", t.Name(), k)
+			return p
+		}
+		// otherwise a variadic/slice parameter: its length is an atom of this function
 	}
 	return f.S.atom("len("+f.canon(v)+")", "len", v)
 }
@@ -1142,4 +1152,52 @@ func (s *Shared) SortedAtoms() []string {
 	}
 	sort.Strings(out)
 	return out
+}
+
+// chunkParam: p is a slice parameter of a declared function all of whose call sites pass an element of
+// xslices.Chunk(X, k) with one constant k.
+func (f *Frame) chunkParam(p *ssa.Parameter) (int64, bool) {
+	fn := p.Parent()
+	if fn == nil || fn.Parent() != nil || f.S.P == nil {
+		return 0, false
+	}
+	idx := -1
+	for i, q := range fn.Params {
+		if q == p {
+			idx = i
+		}
+	}
+	if _, isSlice := p.Type().Underlying().(*types.Slice); !isSlice || idx < 0 {
+		return 0, false
+	}
+	callers := f.S.P.CallersOf(fn)
+	if len(callers) == 0 {
+		return 0, false
+	}
+	size := int64(0)
+	for _, cs := range callers {
+		cc := cs.Common()
+		if cc.IsInvoke() || idx >= len(cc.Args) {
+			return 0, false
+		}
+		u, ok := cc.Args[idx].(*ssa.UnOp)
+		if !ok || u.Op != token.MUL {
+			return 0, false
+		}
+		ia, ok := u.X.(*ssa.IndexAddr)
+		if !ok {
+			return 0, false
+		}
+		c, ok := ia.X.(*ssa.Call)
+		if !ok || c.Call.StaticCallee() == nil || !calleeIs(c.Call.StaticCallee(), "juniper/xslices", "Chunk") {
+			return 0, false
+		}
+		cf := f.S.NewFrame(cs.Fn)
+		k, isConst := cf.EvalInt(c.Call.Args[1]).IsConst()
+		if !isConst || k <= 0 || (size != 0 && size != k) {
+			return 0, false
+		}
+		size = k
+	}
+	return size, true
 }
